@@ -336,7 +336,7 @@ package banderwagon
 //@ at store 0: assert@others forall k int :: start <= k && k < i ==> heapFp()[pobj(DE, Do, k)][poff(DE, Do, k)] == Hb[pobj(DE, Do, k)][poff(DE, Do, k)] && heapFp()[pobj(DE, Do, k)][poff(DE, Do, k) + 1] == Hb[pobj(DE, Do, k)][poff(DE, Do, k) + 1] && heapFp()[pobj(DE, Do, k)][poff(DE, Do, k) + 2] == Hb[pobj(DE, Do, k)][poff(DE, Do, k) + 2]
 //@ at store 0: assert@celli heapFp()[pobj(DE, Do, i)][poff(DE, Do, i)] == HP[pobj(DE, Do, i)][poff(DE, Do, i)] * HP[IV][Io + i] && heapFp()[pobj(DE, Do, i)][poff(DE, Do, i) + 1] == HP[pobj(DE, Do, i)][poff(DE, Do, i) + 1] * HP[IV][Io + i] && heapFp()[pobj(DE, Do, i)][poff(DE, Do, i) + 2] == fp_one
 
-// BatchNormalize. The pointer set is a Go map (map model, rule R3: ghost key set / size / not-yet-visited set); src and idx are
+// BatchNormalize. The pointer set is a Go map (map model, rule M1: ghost key set / size / not-yet-visited set); src and idx are
 // ghost witness functions: src maps a key to a position of elements holding it, idx maps a visited key to its position in
 // dedupedElements. The forward loop builds invs[k] = Z_0...Z_{k-1} (zprod), the backward loop turns it into 1/Z_k, the closure
 // (rule R2) multiplies. Error exactly when some Z is zero, and then no pre-existing point cell has changed.
